@@ -261,6 +261,38 @@ def ob_history(chk, ir, K):
     chk.obligation('history-survives-restart: events(load(save(h))) = events(h) minus entries older than the retention, same order', f'1..{K} events, arbitrary non-decreasing instants', verdict, paths=total, witness=f'{ncmp} before/after comparisons', t=time.time() - t)
 
 
+
+def ob_weblogins(chk, ir):
+    """the daemon reports web logins: every route on which a browser login completes publishes a web-login event for the session's user
+    before answering (route environment and sweep shared with C05)"""
+    from checks import c05
+    from symx import sweep
+    from symx.harness import routes
+    c05._IR = ir
+    t = time.time(); verdict = 'holds'
+    targets = {f'(*{M}.RuntimeState).updateAuthCookieAuthlevel', f'(*{M}.RuntimeState).setNewAuthCookie', f'(*{M}.RuntimeState).genNewSerializedAuthJWT'}
+    todo = []
+    for rt in routes(ir):
+        h = rt['handler']
+        if rt['mux'] != 'service' or not isinstance(h, str) or h not in ir.funcs: continue
+        fs = ir.reachable([h], within=lambda f: not f.endswith('.writeFailureResponse'))
+        if fs & targets: todo.append(rt)
+    total = 0; n = 0; where = []
+    for rt, out in zip(todo, sweep.parallel(c05.route_worker, todo)):
+        if out['inconclusive']: chk.obligation(f'web-logins route {rt["path"]}', '-', 'inconclusive', out['inconclusive']); continue
+        total += out['paths']; n += out.get('weblogins', 0)
+        if out.get('weblogins'): where.append(rt['path'])
+        chk.states += out['paths']; chk.transitions += out['transitions']; chk.queries += out['queries']; chk.solver_s += out['solver_s']; chk.functions |= set(out['functions'])
+        for site, what, md in out.get('weblogin_viol', []):
+            r_ = chk.violation('web-logins-reported', site, what, md)
+            if r_ == 'new': verdict = 'violated'
+            elif verdict == 'holds': verdict = 'known'
+    if n == 0: chk.obligation('web-logins-reported', '-', 'inconclusive', 'vacuous: no completing browser login'); return
+    chk.witnesses += n
+    chk.obligation('web-logins-reported: every completed browser login (session cookie minted or raised, browser sent on to its login destination) is preceded by a web-login event naming the session\'s user',
+                   f'routes {where}; cookies 1..2; factor verifiers as contracts', verdict, paths=total, witness=f'{n} completing browser-login paths', t=time.time() - t)
+
+
 def main(chk):
     ir = chk.load_ir()
     chk.assumptions = ['gob encode/decode of the saved history = identity (encoding/gob)', 'library signing calls are sinks carrying the certificate bytes as a term', 'channel semantics: a send succeeds iff the channel has room',
@@ -268,7 +300,8 @@ def main(chk):
     chk.bounds = {'subscribers': '0..3', 'events': '1..3 quick / 1..4 thorough', 'routes': 'every service route that can reach a signing call'}
     ob_publish(chk, ir)
     ob_fanout(chk, ir)
-    ob_history(chk, ir, 3 if chk.tier == 'quick' else 4)
+    ob_history(chk, ir, 3 if chk.tier == "quick" else 4)
+    ob_weblogins(chk, ir)
 
 
 if __name__ == '__main__':
